@@ -345,19 +345,14 @@ class TypeChecker(walkers.dag.DagWalker):
         if to_skip or right.lower_bound != right.upper_bound:
             pass
         else:
-            left_lower = -float("inf") if left.lower_bound is None else left.lower_bound
-            left_upper = float("inf") if left.upper_bound is None else left.upper_bound
-            right = right.lower_bound
-            lower = min(left_lower / right, left_upper / right)
-            upper = max(left_lower / right, left_upper / right)
-        if lower == -float("inf"):
-            lower = None
-        if upper == float("inf"):
-            upper = None
-        if lower is not None:
-            lower = Fraction(lower)
-        if upper is not None:
-            upper = Fraction(upper)
+            # exact rational quotients: int / int would go through binary floats
+            divisor = Fraction(right.lower_bound)
+            if left.lower_bound is not None:
+                lower = Fraction(left.lower_bound) / divisor
+            if left.upper_bound is not None:
+                upper = Fraction(left.upper_bound) / divisor
+            if divisor < 0:
+                lower, upper = upper, lower
         return self.environment.type_manager.RealType(lower, upper)
 
     @walkers.handles(OperatorKind.LE, OperatorKind.LT)
